@@ -87,6 +87,8 @@ pub fn test_case(c: &Case) -> Result<CaseInfo, Fail> {
     let n = c.n;
     let endpoints = if c.dealer { n + 1 } else { n };
     let world = World::new(endpoints, usize::MAX);
+    // trusted dealer: the order in which its sends to the parties complete is the scheduler's choice
+    world.net.lock().unwrap().slow_sends = c.dealer;
     let rec = recipe(c.recipe_seed, c.l, c.base);
     let b = pv::bucket_size(c.l);
     let mut tasks: Vec<Option<Task<PartyOut>>> = vec![];
@@ -251,7 +253,7 @@ fn gen_case(max_l: usize, dealer_prob: u32) -> impl Strategy<Value = Case> {
 
 pub fn run(tier: Tier, seed: u64) -> i32 {
     let ctx = Ctx::new("C10", tier, seed, "exploration");
-    ctx.set_rule("proptest: n in 2..5 x batch length l (1..12, boundary values where (l*15+160) crosses a multiple of 128, up to 600 in quick / 5000 in thorough, plus 3100 (bucket size 4) and in thorough 280000 at n=2 (bucket size 3)) x alpha/beta shares built as XOR of 0..3 random outputs of a previous aShare call (zero share, alpha=beta, shared operands) x global keys x schedule, through the real aShare / Beaver-aAND code (plain-typed wrappers) and through the trusted dealer speaking the engine's wire format (every other dealer case: one party, any index, submits a left/right share (one with non-zero MACs) with a flipped bit under the old MACs - the dealer must refuse, or the AND shares it hands out must still satisfy the relation for the authenticated inputs); oracle: for every index and ordered pair (i,j) MAC_i[j] = key_j[i] XOR bit_i*delta_j for random shares and AND shares, XOR of sigma shares = (XOR alpha)(XOR beta), identical multi-party and pairwise coins; non-trivial = l >= 2 with some alpha != beta; distinct by hash of the case");
+    ctx.set_rule("proptest: n in 2..5 x batch length l (1..12, boundary values where (l*15+160) crosses a multiple of 128, up to 600 in quick / 5000 in thorough, plus 3100 (bucket size 4) and in thorough 280000 at n=2 (bucket size 3)) x alpha/beta shares built as XOR of 0..3 random outputs of a previous aShare call (zero share, alpha=beta, shared operands) x global keys x schedule, through the real aShare / Beaver-aAND code (plain-typed wrappers) and through the trusted dealer speaking the engine's wire format, with the completion order of concurrently issued sends chosen by the schedule (every other dealer case: one party, any index, submits a left/right share (one with non-zero MACs) with a flipped bit under the old MACs - the dealer must refuse, or the AND shares it hands out must still satisfy the relation for the authenticated inputs); oracle: for every index and ordered pair (i,j) MAC_i[j] = key_j[i] XOR bit_i*delta_j for random shares and AND shares, XOR of sigma shares = (XOR alpha)(XOR beta), identical multi-party and pairwise coins; non-trivial = l >= 2 with some alpha != beta; distinct by hash of the case");
     prop_search(&ctx, "c10", tier.pick(140, 6000), || gen_case(tier.pick(600, 5000), 25), test_case);
     if !ctx.stopped() {
         // bucket size 4 (l >= 3100) and, in thorough, 3 (l >= 280000)
